@@ -485,3 +485,16 @@ async fn send_connection_reply(
 
     Ok(())
 }
+
+/// Wrappers exposing the private handshake parsers to the verification harness.
+#[cfg(feature = "verif")]
+pub mod verif_socks5 {
+    use super::*;
+    pub async fn authenticate(conn: &mut tokio::net::TcpStream) -> Result<()> {
+        super::authenticate(conn).await
+    }
+    /// (address as the front-end will request it, port, command byte)
+    pub async fn read_connection_request(conn: &mut tokio::net::TcpStream) -> Result<(String, u16, u8)> {
+        super::read_connection_request(conn).await.map(|(a, c)| (a.addr, a.port, c))
+    }
+}
